@@ -44,3 +44,19 @@ fn c12_parse_offset_grammar() {
         (Err(_), Ok(_)) => assert!(false, "rejected a string of the offset grammar"),
     }
 }
+
+/// non-ASCII numeric characters never reach the digit conversion: no panic, and such a string is never an offset (C03 / C12)
+// bounded: 16 fixed strings with a multi-byte numeric character (Arabic-Indic / full-width digits, vulgar fraction, superscript) in each digit position
+// timeout: 1200
+#[kani::proof]
+fn c12_parse_offset_non_ascii() {
+    let sel: u8 = kani::any();
+    kani::assume(sel < 16);
+    let s: &str = match sel {
+        0 => "+\u{0660}\u{0665}:30", 1 => "+0\u{ff15}", 2 => "+1\u{00bd}", 3 => "-05:3\u{0660}", 4 => "+\u{0660}", 5 => "+1\u{0660}:00",
+        6 => "+10:\u{0660}0", 7 => "+10\u{0660}0", 8 => "+10:0\u{0660}", 9 => "+\u{00b2}2", 10 => "-\u{ff11}\u{ff10}", 11 => "+100\u{00bd}",
+        12 => "+10:00\u{0660}", 13 => "-\u{0660}\u{0660}\u{0660}\u{0660}", 14 => "+05\u{ff1a}30", _ => "+1\u{0663}30",
+    };
+    let got = parse_offset(&mut s.chars().peekable());
+    assert!(got.is_err());
+}
